@@ -18,9 +18,13 @@ pub mod c13;
 pub mod c14;
 pub mod c15;
 pub mod c16;
+pub mod c17;
+pub mod c18;
+pub mod c19;
+pub mod c20;
 
 pub fn ids() -> Vec<&'static str> {
-    vec!["C01", "C02", "C03", "C04", "C05", "C06", "C07", "C08", "C09", "C10", "C11", "C12", "C13", "C14", "C15", "C16"]
+    vec!["C01", "C02", "C03", "C04", "C05", "C06", "C07", "C08", "C09", "C10", "C11", "C12", "C13", "C14", "C15", "C16", "C17", "C18", "C19", "C20"]
 }
 
 pub fn property(id: &str) -> Option<Property> {
@@ -41,6 +45,10 @@ pub fn property(id: &str) -> Option<Property> {
         "C14" => c14::property(),
         "C15" => c15::property(),
         "C16" => c16::property(),
+        "C17" => c17::property(),
+        "C18" => c18::property(),
+        "C19" => c19::property(),
+        "C20" => c20::property(),
         _ => return None,
     })
 }
